@@ -59,6 +59,9 @@ TraceNext ==
        [] Ev = "local.dispatch.post" -> Obs(A[1] = P /\ epc[P] = "load" /\ cnt[P] = 0)
        [] Ev = "final"            -> Obs(/\ \A i \in Installers : ipc[i] \in {"cas", "done"}
                                          /\ \A e \in Emitters : epc[e] = "load")
+       \* after the run, a fresh thread emitted once in the ordinary way and once from a thread-local destructor while exiting:
+       \* with a recorder installed both reached it (nothing is ever dispatched elsewhere once the cell is initialised)
+       [] Ev = "tls.exit"         -> Obs(state = INITED => (A[1] = slot /\ A[2] = 2))
        [] Ev = "free"             -> Obs(FreeOK(Rec[l]))
        [] OTHER -> FALSE          \* livelock / stuck / crash / panic / unknown site
 
